@@ -117,6 +117,16 @@ class BagEval(TemplateEval):
             if isinstance(st, ast.Assign) and len(st.targets) == 1 and isinstance(st.targets[0], ast.Name):
                 self.env[st.targets[0].id] = ('text', self._joined_bags(st.value, st))
                 return
+            if isinstance(st, ast.Expr) and isinstance(st.value, ast.Call) and isinstance(st.value.func, ast.Attribute) and \
+                    st.value.func.attr in ('reverse', 'sort') and isinstance(st.value.func.value, ast.Name) and \
+                    isinstance(self.env.get(st.value.func.value.id), (_Bag, SList)) and not st.value.args and \
+                    all(st.value.func.attr == 'sort' and k.arg == 'reverse' and isinstance(k.value, ast.Constant) for k in st.value.keywords):
+                # the list is re-ordered in place: the same strings in another order -- the bag (order and number abstracted)
+                # is what it was
+                v = self.env[st.value.func.value.id]
+                if isinstance(v, SList) and v.kind != 'list':
+                    raise self.fail('%s of something that is not a list' % st.value.func.attr, st)
+                return
             raise self.fail('after the accumulating loop only the assembly of the text is followed', st)
         return TemplateEval.exec_stmt(self, st)
 
